@@ -206,6 +206,39 @@ fn run_stress_case(line: &str) -> String {
     format!("rounds={} lost_ping={} extra_callback={} not_removed={}", rounds, f(lost), f(extra), f(kept))
 }
 
+/// The last handle dies with its thread (C03): main drops its handle, a worker holding the last clone pings and then panics. The ping is
+/// delivered once and the source removes itself. Output: callbacks=<n> removed=<0|1>
+fn run_panic_case(_line: &str) -> String {
+    let mut event_loop: EventLoop<'static, u32> = EventLoop::try_new().expect("loop");
+    let handle = event_loop.handle();
+    let (ping, source) = make_ping().expect("ping");
+    let token = handle.insert_source(source, |(), &mut (), n: &mut u32| *n += 1).expect("insert");
+    let other = ping.clone();
+    drop(ping);
+    let prev = std::panic::take_hook();
+    std::panic::set_hook(Box::new(|_| {}));
+    let h = std::thread::spawn(move || {
+        let owned = other;
+        owned.ping();
+        panic!("the pinger's thread dies");
+    });
+    let _ = h.join();
+    std::panic::set_hook(prev);
+    let mut n = 0u32;
+    for _ in 0..3 {
+        let _ = event_loop.dispatch(Some(Duration::ZERO), &mut n);
+    }
+    let removed = handle.disable(&token).is_err();
+    format!("callbacks={} removed={}", n, removed as u8)
+}
+
+pub fn run_panic() {
+    crate::for_each_line(|l| {
+        let r = std::panic::catch_unwind(|| run_panic_case(l)).unwrap_or_else(|_| "PANIC".to_string());
+        println!("{}", r);
+    });
+}
+
 pub fn run_stress() {
     crate::for_each_line(|l| {
         let r = std::panic::catch_unwind(|| run_stress_case(l)).unwrap_or_else(|_| "PANIC".to_string());
